@@ -124,6 +124,13 @@ def cases(draw):
         if any(f["p"] == path for f in files):
             path = _join(d, f"{stem}{i}{seeds.EXT[lang]}")
         files.append({"p": path, "lang": lang, "snips": chosen, "header": draw(st.booleans())})
+    if "rs" in own_langs and draw(st.booleans()):
+        # Rust files whose verdicts depend on their OWN `use` lines: a file that imports tokio's fs (its fs:: calls are
+        # fine), a file without any `use` whose fs:: call means std::fs, and a second importing file; every file must be
+        # judged by its own imports whatever was analysed before it
+        d = draw(st.sampled_from(dirs))
+        for nm, sp in (("aa_tokio", "rs-imports-tokio"), ("mm_plain", "rs-no-imports"), ("zz_tokio", "rs-imports-tokio")):
+            files.append({"p": _join(d, nm + ".rs"), "lang": "rs", "special": sp, "u": 700 + len(files)})
     if cross or draw(st.integers(0, 9)) == 0:
         kind = "str" if cmd == "stringly-typed" else "dry"
         for g in range(draw(st.integers(1, 2))):
@@ -155,6 +162,12 @@ def _join(d, name):
 
 def render(f) -> str:
     lang = f["lang"]
+    if f.get("special") == "rs-imports-tokio":
+        u = f["u"]
+        return "\n".join(["use tokio::fs;", "", f"async fn load_{u}(p{u}: &str) -> usize {{", f"    let text{u} = fs::read_to_string(p{u}).await;", f"    measure_{u}(text{u})", "}", ""])
+    if f.get("special") == "rs-no-imports":
+        u = f["u"]
+        return "\n".join([f"async fn report_{u}(p{u}: &str) -> usize {{", f"    let text{u} = fs::read_to_string(p{u});", f"    let copy{u} = text{u}.clone();", f"    measure_{u}(copy{u}, text{u})", "}", ""])
     if "set" in f:
         fs = (seeds.stringly_set if f["set"] == "str" else seeds.dry_set)(lang, f["u"], f["nf"])
         texts = list(fs.values())
@@ -311,7 +324,7 @@ def check(case) -> Case:
         labels.append("cross-file-set")
     if any(f["p"].startswith("pkg/build/") for f in files):
         labels.append("file-in-excluded-dir")
-    shape = sorted([os.path.dirname(f["p"]), f["lang"], ",".join(sorted(s[0] for s in f.get("snips", []))) or f.get("set")] for f in files)
+    shape = sorted([os.path.dirname(f["p"]), f["lang"], ",".join(sorted(s[0] for s in f.get("snips", []))) or f.get("set") or f.get("special") or ""] for f in files)
     key = h([cmd, shape, len(case["subset"]), case["subdir"], case["recursive"], bool(case.get("explicit_config"))])
     return Case(key=key, nontrivial=nontrivial, labels=labels, failures=failures)
 
